@@ -52,3 +52,40 @@ Example C08_nonvacuous :
   let s := fst (rerun 4 idz idz (reinit_at 0) (fun t => nth t progs []) (repeat 0%nat 30 ++ repeat 1%nat 20)) in
   (yielded_of (log (ring s)), rejected_of (log (ring s)), bad s, etail (ring s) - tail (ring s)) = ([100; 101], [102], false, 0).
 Proof. vm_compute. reflexivity. Qed.
+
+(* ---- the channel wrappers: reserve_slot / try_send_reserved / try_cancel_slot_reserve of the movable atomic Uni channel
+   (Chan/ChanX.v, the machine in lock-step with the code), for EVERY interleaving of: one thread reserving / sending reserved /
+   cancelling in any order, any number of threads polling, driving streams, asking the length or cancelling all streams - and for
+   any wake decisions: the reserve machine inside the channel only moves by well-formed reserve-machine events (ChanXProps.v),
+   so the three theorems above hold at the channel level ---- *)
+From RM Require Import Chan ChanProps ChanX ChanXProps.
+
+Theorem C08_channel_wrong_guess_unreachable :
+  forall N, 0 < N -> forall M k ws wr wa xevs, Forall xwf_ev xevs ->
+    bad (qx (fold_left (xexec N idz idz M k ws wr wa) xevs (xinit k (reinit_at 0)))) = false.
+Proof. exact chan_reserve_never_bad. Qed.
+Print Assumptions C08_channel_wrong_guess_unreachable.
+
+Theorem C08_channel_sent_delivered_exactly_once_cancelled_never :
+  forall N, 0 < N -> forall M k ws wr wa xevs, Forall xwf_ev xevs ->
+    let x := ring (qx (fold_left (xexec N idz idz M k ws wr wa) xevs (xinit k (reinit_at 0)))) in
+    yielded_of (log x) = firstn (length (yielded_of (log x))) (accepted_of (log x)).
+Proof. exact chan_reserve_exactly_once. Qed.
+Print Assumptions C08_channel_sent_delivered_exactly_once_cancelled_never.
+
+Theorem C08_channel_no_leak :
+  forall N, 0 < N -> forall M k ws wr wa xevs, Forall xwf_ev xevs ->
+    let s := qx (fold_left (xexec N idz idz M k ws wr wa) xevs (xinit k (reinit_at 0))) in
+    (forall u, thr (ring s) u = Idle) -> etail (ring s) = tail (ring s) /\ dhead (ring s) = head (ring s).
+Proof. exact chan_reserve_no_leak. Qed.
+Print Assumptions C08_channel_no_leak.
+
+(* non-vacuity: a well-formed channel history - the stream parks, thread 0 reserves 3, cancels the last, sends the first two;
+   the stream is woken and yields exactly [100; 101] *)
+Example C08_channel_nonvacuous :
+  let progs := [[XoReserve 0 100; XoReserve 1 101; XoReserve 2 102; XoCancelRes 2; XoSendRes 0; XoSendRes 1]; [XoBase (CoDrive 0)]] in
+  let s := fst (xrun 4 idz idz 1 1 (wake_rule_atomic 1) (wake_res_code 1) (wake_async_code 1) (xinit 1 (reinit_at 0)) (xprogs_of progs)
+                     (repeat 1%nat 14 ++ repeat 0%nat 40 ++ repeat 1%nat 40)) in
+  (cyields (clog _ (xb s)), map snd (xlog s), bad (qx s)) =
+  ([100; 101], [XSlot 0; XSlot 1; XSlot 2; XCancelled 2; XSent 0; XSent 1], false).
+Proof. vm_compute. reflexivity. Qed.
